@@ -335,3 +335,24 @@ VH_ENTRY vh_advance_query() {
   for (unsigned i = 0; i < NG; ++i) ASSERT(((uint32_t *)adv)[i] == snapshot[i], "slot queries leave the shared font's advance cache bit-identical");
   VH_END();
 }
+
+// ---- DELETE immediately followed by INSERT in one rule (the cursor slot is already unlinked when INSERT runs), then collectGarbage
+VH_ENTRY vh_delete_insert() {
+  World w; vh_make_face(w); vh_make_segment(w);
+  ASSUME(inv_stream(w));
+  unsigned start, len, ctx; window(start, len, ctx);
+  VM_SETUP(w, start, len, ctx, 8);
+  const byte *dp = 0;
+  Slot *victim = reg.is;
+  bool c1 = op_body(DELETE)(dp, sp, sb, reg);
+  ASSERT(c1, "DELETE continues");
+  bool c2 = op_body(INSERT)(dp, sp, sb, reg);
+  ASSERT(c2 && status == Machine::finished, "INSERT with budget continues");
+  ASSERT(w.seg->m_numGlyphs == NS && !in_stream(w, victim), "one slot out, one slot in");
+  ASSERT(inv_stream(w), "after DELETE;INSERT: stream well formed (the new slot links to live slots only)");
+  Slot *cursor = reg.is;
+  smap.collectGarbage(cursor);
+  ASSERT(inv_stream(w), "after collectGarbage: stream well formed");
+  ASSERT(in_stream(w, w.sl[NS]), "the inserted slot is in the stream");
+  VH_END();
+}
